@@ -372,10 +372,13 @@ void execute_member_assignment(StatementExecutor *executor,
             debug_msg(DebugMsgId::GENERIC_DEBUG, dbg_buf);
         }
 
-        // constメンバへの代入チェック
+        // constメンバへの代入チェック。const と宣言されたメンバーの中の
+        // メンバー (struct Q { const P inner; } の q.inner.x) も const
         auto final_member_it = members.find(final_member);
         if (final_member_it != members.end()) {
-            if (final_member_it->second.is_const &&
+            if ((final_member_it->second.is_const ||
+                 AssignmentHelpers::is_part_of_const_member(
+                     interpreter, member_access->left.get())) &&
                 final_member_it->second.is_assigned) {
                 throw std::runtime_error("Cannot assign to const member '" +
                                          final_member +
